@@ -31,9 +31,54 @@ type deliverArgs struct {
 	N    int    `json:"n"`
 }
 
+// grantArgs: AK is the kind of fee allowance ("" = basic): basic, periodic, amsgb / amsgp (allowed-msg allowance wrapping a
+// basic / periodic one); a trailing "+" gives it an expiration one hour ahead.
 type grantArgs struct {
-	G int `json:"g"`
-	E int `json:"e"`
+	G  int    `json:"g"`
+	E  int    `json:"e"`
+	AK string `json:"ak"`
+}
+
+// allowance builds the fee allowance of a kind; exp (may be nil) is its expiration.
+func allowance(ak string, exp *time.Time) (feegrant.FeeAllowanceI, error) {
+	basic := &feegrant.BasicAllowance{Expiration: exp}
+	periodic := &feegrant.PeriodicAllowance{Basic: feegrant.BasicAllowance{Expiration: exp}, Period: time.Hour,
+		PeriodSpendLimit: sdk.NewCoins(sdk.NewInt64Coin(env.BondDenom, 1000)), PeriodCanSpend: sdk.NewCoins(sdk.NewInt64Coin(env.BondDenom, 1000))}
+	allowed := []string{"/cosmos.bank.v1beta1.MsgSend"}
+	switch strings.TrimSuffix(ak, "+") {
+	case "", "basic":
+		return basic, nil
+	case "periodic":
+		return periodic, nil
+	case "amsgb":
+		return feegrant.NewAllowedMsgAllowance(basic, allowed)
+	case "amsgp":
+		return feegrant.NewAllowedMsgAllowance(periodic, allowed)
+	}
+	return nil, fmt.Errorf("unknown allowance kind %q", ak)
+}
+
+// allowanceKind names the kind of a stored allowance.
+func allowanceKind(al feegrant.FeeAllowanceI) string {
+	k := "other"
+	switch a := al.(type) {
+	case *feegrant.BasicAllowance:
+		k = "basic"
+	case *feegrant.PeriodicAllowance:
+		k = "periodic"
+	case *feegrant.AllowedMsgAllowance:
+		inner, err := a.GetAllowance()
+		if err != nil {
+			return "amsg?"
+		}
+		switch inner.(type) {
+		case *feegrant.BasicAllowance:
+			k = "amsgb"
+		case *feegrant.PeriodicAllowance:
+			k = "amsgp"
+		}
+	}
+	return k
 }
 
 func TestDriveAuth(t *testing.T) {
@@ -122,6 +167,23 @@ func (w *world) grantObs() map[string]int {
 	return map[string]int{"ab": w.grantState(pA, pB), "ba": w.grantState(pB, pA)}
 }
 
+// grantKinds: the kind of the stored allowance per direction ("-" = none; "+" = it carries an expiration that is still ahead
+// at the time of the next block).
+func (w *world) grantKinds() map[string]string {
+	one := func(g, e int) string {
+		al, err := w.e.App.FeeGrantKeeper.GetAllowance(w.e.Ctx(), w.addr(g), w.addr(e))
+		if err != nil || al == nil {
+			return "-"
+		}
+		k := allowanceKind(al)
+		if exp, err := al.ExpiresAt(); err == nil && exp != nil && exp.After(w.e.Time.Add(w.e.Opts.BlockTime)) {
+			k += "+"
+		}
+		return k
+	}
+	return map[string]string{"ab": one(pA, pB), "ba": one(pB, pA)}
+}
+
 func firstLine(s string) string {
 	if i := strings.IndexByte(s, '\n'); i >= 0 {
 		s = s[:i]
@@ -185,6 +247,9 @@ func runHistory(t *testing.T, em *drv.Emitter, h drv.History) {
 			if err := json.Unmarshal(stp.Args, &a); err != nil {
 				t.Fatal(err)
 			}
+			if a.AK == "" {
+				a.AK = "basic"
+			}
 			ev["args"] = a
 			var msg sdk.Msg
 			switch stp.Act {
@@ -192,11 +257,18 @@ func runHistory(t *testing.T, em *drv.Emitter, h drv.History) {
 				m := feegrant.NewMsgRevokeAllowance(w.addr(a.G), w.addr(a.E))
 				msg = &m
 			default:
-				al := &feegrant.BasicAllowance{}
+				var exp *time.Time
 				if stp.Act == "GrantExp" {
 					// valid in the block that stores it, expired at the time of every later block
-					exp := e.Time.Add(e.Opts.BlockTime).Add(time.Second)
-					al.Expiration = &exp
+					x := e.Time.Add(e.Opts.BlockTime).Add(time.Second)
+					exp = &x
+				} else if strings.HasSuffix(a.AK, "+") {
+					x := e.Time.Add(time.Hour)
+					exp = &x
+				}
+				al, err := allowance(a.AK, exp)
+				if err != nil {
+					t.Fatal(err)
 				}
 				m, err := feegrant.NewMsgGrantAllowance(al, w.addr(a.G), w.addr(a.E))
 				if err != nil {
@@ -210,7 +282,7 @@ func runHistory(t *testing.T, em *drv.Emitter, h drv.History) {
 				return
 			}
 			fill(ev, r)
-			ev["g"] = w.grantObs()
+			ev["g"], ev["gk"] = w.grantObs(), w.grantKinds()
 			em.Emit(ev)
 		case "Deliver":
 			var a deliverArgs
@@ -257,6 +329,29 @@ func runHistory(t *testing.T, em *drv.Emitter, h drv.History) {
 			ev["obs"], ev["chg"] = obs, chg
 			ev["gpost"] = w.grantObs()
 			ev["suspect"] = map[string]any{"A": w.suspects(pre, post, pA), "B": w.suspects(pre, post, pB)}
+			em.Emit(ev)
+		case "Reimport":
+			// the genesis round trip of the whole application, then one block (the imported state is committed with it)
+			ev["args"] = map[string]any{"kind": strings.TrimSuffix(strings.Split(kind, "+")[0], "#K")}
+			ev["g"] = w.grantObs()
+			pre := w.snap(true)
+			if err := e.Reimport(); err != nil {
+				ev["cls"], ev["log"] = "reimport", firstLine(err.Error())
+			} else if _, err := e.DeliverBlock(nil); err != nil {
+				ev["cls"], ev["log"] = "reimport", firstLine(err.Error())
+			} else {
+				ev["res"], ev["cls"] = "ok", "ok"
+			}
+			if ev["res"] != "ok" {
+				// the application is unusable: recorded, the history ends here
+				ev["obs"], ev["chg"], ev["gpost"] = map[string]any{}, []string{}, map[string]int{"ab": 0, "ba": 0}
+				em.Emit(ev)
+				return
+			}
+			post := w.snap(true)
+			obs, chg := w.encode(in, pre, post)
+			ev["obs"], ev["chg"] = obs, chg
+			ev["gpost"] = w.grantObs()
 			em.Emit(ev)
 		case "DeliverK":
 			var a deliverKArgs
@@ -362,6 +457,9 @@ func blockFail(em *drv.Emitter, ev map[string]any, err error) {
 	ev["log"] = firstLine(err.Error())
 	if _, ok := ev["g"]; !ok {
 		ev["g"] = map[string]int{"ab": 0, "ba": 0}
+	}
+	if a, ok := ev["act"].(string); ok && (a == "Grant" || a == "GrantExp" || a == "Revoke") {
+		ev["gk"] = map[string]string{"ab": "-", "ba": "-"}
 	}
 	if ev["act"] == "Deliver" || ev["act"] == "Deliver2" || ev["act"] == "DeliverK" {
 		ev["obs"], ev["chg"], ev["suspect"], ev["gpost"] = map[string]any{}, []string{}, map[string]any{}, map[string]int{"ab": 0, "ba": 0}
